@@ -180,6 +180,28 @@ def nonzero_guard(fn, bb, divisor):
     return None
 
 
+def positive_guard(fn, bb, operand):
+    """the site is control-dependent on `operand > k` (k >= 0) or `operand >= k` (k >= 1)"""
+    if operand is None:
+        return None
+    from .facts import const_int
+    roots = {o.key() for o in flow.origins(fn, operand)}
+    for (sb, taken) in flow.guards(fn, bb):
+        cd = flow.cond_of(fn, sb)
+        side = flow.bool_true_labels(taken)
+        if side is None or cd.kind != "bin":
+            continue
+        truth = (side != cd.neg)
+        a_r = {o.key() for o in flow.origins(fn, cd.rv["a"])}
+        kb = const_int(cd.rv["b"])
+        if (a_r & roots) and kb is not None:
+            op = cd.rv["op"]
+            if (op == "Gt" and kb >= 0 and truth) or (op == "Ge" and kb >= 1 and truth) or \
+                    (op == "Le" and kb >= 0 and not truth) or (op == "Lt" and kb >= 1 and not truth):
+                return "%s %d" % (op, kb)
+    return None
+
+
 def comparison_guards(fn, bb, operand_locals):
     """dominating comparisons that mention (a value derived from the same roots as) the operands"""
     roots = set()
